@@ -140,6 +140,14 @@ func (i *Instance) Stop() error {
 			if err := gs.Stop(); err != nil {
 				log.Printf("[ERROR] Stopping %s: %v", gs.Address(), err)
 			}
+			// The packet socket was opened for the server by startServers
+			// and a server's Stop does not necessarily know about it (an
+			// HTTP server that serves no QUIC never touches it): without
+			// this it stays bound after the server is gone, and a later
+			// configuration that uses the address again cannot listen.
+			if s.packet != nil {
+				s.packet.Close()
+			}
 		}
 	}
 
